@@ -1,8 +1,9 @@
 /-
   Property C08 — secret-independent control flow and memory access in the sensitive primitives.
   (Property theorems only; the checker and interpreter are SMGo/Model/CTIR.lean, the program is
-  GENERATED from the Go sources: SMGo/Gen/CTIRProg.lean, the soundness proof is
-  SMGo/Proofs/CTIRSound.lean, the kernel evaluations are SMGo/Proofs/CTIRCheck*.lean.)
+  GENERATED from the Go sources: SMGo/Gen/CTIRProg.lean (`prog`, 100 functions: `prog_length`), the
+  soundness proof is SMGo/Proofs/CTIRSound.lean, the external world SMGo/Proofs/CTIROracle.lean, the kernel
+  evaluations SMGo/Proofs/CTIRCheck*.lean.)
 
   "While multiplying the base point or an arbitrary point by a secret scalar, inverting a secret
   modulo n or p, selecting from precomputed tables, range-testing a private key and comparing secret
@@ -10,42 +11,75 @@
   same for every value of the secret (of a given length); only the final accept/reject verdicts depend
   on it."
 
-  Reading: `ct_f : check (slice prog f) sigs f = true` — the function f and everything it calls respect
-  their label signatures (`sigs`: secrets = byte strings, words, field/scalar elements, points;
-  public = lengths, counters, window parameters).  By `sound`, two runs of f whose public arguments
-  are equal and whose secret arguments have the same shape (lengths) produce the same leakage trace
-  (branch decisions, loop-condition outcomes, indices, slice bounds, allocation sizes, shift counts,
-  callees, arguments of leaking external calls) provided the declassified verdicts coincide.
+  Reading.  `ct_f : check (slice prog f) sigs f = true` — f and everything it calls respect their label
+  signatures (`sigs`: secrets = byte strings, words, field/scalar elements, points, math/big values;
+  public = lengths, counters, window parameters, the reader and its position).  Then:
+    * `sound`: two COMPLETED runs of f with equal public arguments, secret arguments of the same shape
+      (lengths), related external worlds and equal declassified verdicts have the same leakage trace
+      (branch decisions, loop-condition outcomes, indices, slice bounds, allocation sizes, shift counts,
+      callees, arguments of leaking external calls);
+    * `progress`: if one run completes with fuel f, every such second run completes with the SAME fuel
+      and the same trace — or its trace so far departs from the first at a declassified verdict.  So
+      "the run completes" is itself a public property; no theorem below is vacuous for one secret and
+      meaningful for another.
+    * `stdOracle_rel`: the hypothesis on the external worlds is inhabited by the executable model
+      `stdOracle extKinds tape` of the math/big operations, `io.ReadFull` (a tape: successive reads
+      deliver successive candidates; the position is a public variable of the calling function) and
+      `fmt.Errorf`, for ANY two tapes.  `SignHashed_trace`, `GenerateKey_trace`, … are stated with it:
+      no side condition on the external world remains.
+    * Non-stuckness itself: `runs_*` are kernel evaluations of the interpreter on concrete inputs for
+      the functions that fit the kernel (comparison, key range test, bit extraction, table selection,
+      Fiat primitives, SetBytes of both fields, ensure32Bytes, point addition and doubling), `redraw_*`
+      shows a run with a rejected candidate completing.  For the big ones (the inversions, the scalar
+      multiplications, SignHashed, GenerateKey, DerivePublic) completion is evidenced by the driver runs of
+      the harness (results compared with the real functions, streams with rejected candidates
+      included), NOT proved.
 
-  Entry points: `ct_SignHashed`, `ct_GenerateKey`, `ct_DerivePublic` — every function reachable from
-  signing, key generation and key derivation along which secret data flows passes (the math/big
-  arithmetic on k and d inside SignHashed is outside the enumerated operations: those calls are the
-  non-leaking `obs` nodes of the program: observations, not violations).
+  What is assumed, stated plainly.
+    * math/big on secret-derived values.  In SignHashed these calls occur (non-leaking `ext` nodes,
+      `Event.obs`): SetBytes(e), Add(x, e), Mod(r, n), Sign(r), SetBytes(K), Add(r, k), FillBytes(r + k),
+      SetBytes(priv), Add(d, 1), FillBytes(1 + d), Mul(r + k, (1 + d)⁻¹), Sub(s, r), Mod(s, n), Sign(s); in
+      its callees: SetBytes in ToBigInt (x of [k]G, (1 + d)⁻¹), and Bytes() of r and s in ensure32Bytes.
+      Their OWN execution is assumed trace-free: math/big is variable time (limb counts of r + k,
+      (1 + d)⁻¹ vary) and is outside the operations the property enumerates.  What the theorems cover is
+      everything the program does WITH their results.  The byte length of `Bytes()` depends on the value:
+      it is a separate result (`ByteLen`) that the checker forces to be declassified before it becomes
+      an allocation size / slice bound (site 14: r and s are the public outputs of the call).
+    * The `_Unsafe` conversions (rejected: `reject_*`, `witness_*`) are reached only from VerifyHashed,
+      on a point computed from the signature and the public key.  VerifyHashed and
+      ScalarMixedMult_Unsafe are not translated: that nothing else calls them is `callers_of_modinverse_conversions`
+      for the translated functions and inspection of the sources for the others.
+    * Idealisations of the translator: nil-ness of pointers and slices is not represented (`p == nil`
+      is false, the Go code panics there); an error value is the integer 1, an interface a handle;
+      `int(math.Pow(2, float64(w)) - 1)` is `(1 << w) - 1`; `len(x) / 2^k` is a shift; an index, slice or
+      `copy` out of range is a stuck run, not a panic; a pointer is its pointee (value semantics, under
+      the aliasing discipline enforced by the translator); FillBytes into a too short buffer (a panic
+      in Go, unreachable in SignHashed) keeps the low bytes.
+    * Verdict sites (`siteInfo`): 0, 1 TestPrivateKey `acc == 0`, `cmp == -1`; 2, 3 SetBytes (mod p, mod n)
+      `ConstantTimeCmp(…) > 0`; 4, 5, 6 `p.z.IsZero() == 1`; 7 GenerateKey `TestPrivateKey(priv) == 0`;
+      8 SignHashed `test := TestPrivateKey(priv)` — this one declassifies the integer code (0 accepted,
+      −1 out of range or zero, len − 32 too long: a function of the verdict and the public length);
+      9–13 the retry decisions; 14 the byte lengths of the outputs r and s.
 
   Still rejected (`reject_*`, `witness_*`): GetAffineX_Unsafe / Bytes_Unsafe (big.Int.ModInverse of Z).
-  They are reachable only from VerifyHashed, on a point computed from public data (signature and
-  public key): outside C08.  `failing_prog` / `callers_of_modinverse_conversions`: nothing else fails, nothing that
-  passes calls them.
 
   Former violations, repaired in the sources (documentation; see SMGo/Proofs/CTIRCheckE.lean):
   SM2ScalarElement.SetBytes early-exit comparison (9cead3d); SignHashed / GenerateKey / DerivePublic through
   GetAffineX_Unsafe / Bytes_Unsafe (233fd1f); ConstantTimeCmp's branching three-way result (9a85a34);
   SignHashed's use of the byte lengths of (r+k).Bytes() and (1+d).Bytes() (3579533: fixed-width FillBytes).
-
-  What the math/big shape hypothesis (`OracleRel`, second clause) still covers in SignHashed: the results
-  of SetBytes / Add / Mul / Sub / Mod / Sign are integers (no shape), FillBytes returns a buffer of the
-  length of its buffer argument, and `Bytes()` is applied only to the outputs r and s in ensure32Bytes
-  (their byte lengths become slice bounds; r and s are the public signature).
 -/
 import SMGo.Model.CTIR
 import SMGo.Gen.CTIRProg
 import SMGo.Proofs.CTIRSound
+import SMGo.Proofs.CTIROracle
 import SMGo.Proofs.CTIRCheckA
 import SMGo.Proofs.CTIRCheckB
 import SMGo.Proofs.CTIRCheckC
 import SMGo.Proofs.CTIRCheckD
 import SMGo.Proofs.CTIRCheckE
 import SMGo.Proofs.CTIRCheckF
+import SMGo.Proofs.CTIRCheckG
+import SMGo.Proofs.CTIRCheckH
 namespace SMGo.Props.C08
 open SMGo.Model.CTIR SMGo.Gen.CTIRProg SMGo.Proofs.CTIRCheck
 
@@ -71,6 +105,36 @@ theorem sound (g : Nat) (hc : check (slice prog g) sigs g = true) (fs : FnSig) (
     (h2 : run (slice prog g) globals X2 f2 g a2 = some (c2, t2))
     (hd : declassOf t1 = declassOf t2) : t1 = t2 ∧ CtlRel fs.results c1 c2 :=
   check_sound_trace (slice prog g) sigs globals X1 X2 hX g hc fs hfs a1 a2 ha f1 f2 c1 c2 t1 t2 h1 h2 hd
+
+/-- progress (lockstep): if one run of a checked function completes with fuel `f`, a second run with equal
+    public arguments, secrets of the same shape and a related external world, given the SAME fuel,
+    completes with the same trace — or its trace so far departs from the first at a declassified
+    verdict.  The second run is not assumed to terminate. -/
+theorem progress (g : Nat) (hc : check (slice prog g) sigs g = true) (fs : FnSig) (hfs : sigs.fn[g]? = some fs)
+    (X1 X2 : Oracle) (hX : OracleRel sigs X1 X2)
+    (a1 a2 : List Val) (ha : lowEqList fs.params a1 a2) (f : Nat) (c1 : Ctl) (t1 : Trace)
+    (h1 : run (slice prog g) globals X1 f g a1 = some (c1, t1)) :
+    (∃ c2, run (slice prog g) globals X2 f g a2 = some (c2, t1) ∧ CtlRel fs.results c1 c2) ∨
+      Div t1 (runT (slice prog g) globals X2 f g a2).2 :=
+  check_progress (slice prog g) sigs globals X1 X2 hX g hc fs hfs a1 a2 ha f c1 t1 h1
+
+/-- … in particular with equal verdicts (on the trace so far of the second run) it completes -/
+theorem progress_verdicts (g : Nat) (hc : check (slice prog g) sigs g = true) (fs : FnSig) (hfs : sigs.fn[g]? = some fs)
+    (X1 X2 : Oracle) (hX : OracleRel sigs X1 X2)
+    (a1 a2 : List Val) (ha : lowEqList fs.params a1 a2) (f : Nat) (c1 : Ctl) (t1 : Trace)
+    (h1 : run (slice prog g) globals X1 f g a1 = some (c1, t1))
+    (hd : declassOf t1 = declassOf (runT (slice prog g) globals X2 f g a2).2) :
+    ∃ c2, run (slice prog g) globals X2 f g a2 = some (c2, t1) ∧ CtlRel fs.results c1 c2 :=
+  check_progress_verdicts (slice prog g) sigs globals X1 X2 hX g hc fs hfs a1 a2 ha f c1 t1 h1 hd
+
+/-- the external world: the executable model of math/big, io.ReadFull (tape) and fmt.Errorf satisfies the
+    hypothesis `OracleRel` of the theorems above, for any two tapes (contents secret; number, positions
+    and lengths of the reads are those of the calls) -/
+theorem stdOracle_rel (tape1 tape2 : Nat → Nat → Nat) :
+    OracleRel sigs (stdOracle extKinds tape1) (stdOracle extKinds tape2) :=
+  SMGo.Model.CTIR.stdOracle_rel tape1 tape2
+
+theorem prog_length : prog.length = 100 := by decide +kernel
 
 /-! ## Per-function instances (kernel evaluation of the checker on the generated program) -/
 
@@ -232,32 +296,54 @@ theorem ConstantTimeCmp_trace (X1 X2 : Oracle) (hX : OracleRel sigs X1 X2) (a1 a
     (hd : declassOf t1 = declassOf t2) : t1 = t2 :=
   (sound f_utils_ConstantTimeCmp ct_ConstantTimeCmp _ rfl X1 X2 hX [a1, b1, l] [a2, b2, l] ⟨ha, hb, rfl, trivial⟩ f1 f2 c1 c2 t1 t2 h1 h2 hd).1
 
-/-- signing: the reader handle is public, the private key and the digest may be anything of the same
-    length; the nonce arrives through the external world (`io.ReadFull`, result labelled secret: the
-    two worlds X1, X2 may deliver different nonces).  Equal verdicts (key accepted, same retry
-    decisions) ⇒ equal traces. -/
-theorem SignHashed_trace (X1 X2 : Oracle) (hX : OracleRel sigs X1 X2) (rand priv1 priv2 e1 e2 : Val)
+/-- signing, with the concrete external world: ANY two tapes (nonce candidates, including rejected
+    ones), any private keys and digests of the same lengths, the same reader handle.  Equal verdicts
+    (key accepted, the same retry decisions in the same order, outputs r, s of the same byte length)
+    ⇒ equal traces.  No hypothesis on the external world. -/
+theorem SignHashed_trace (tape1 tape2 : Nat → Nat → Nat) (rand priv1 priv2 e1 e2 : Val)
     (hp : priv1.erase = priv2.erase) (he : e1.erase = e2.erase)
     (f1 f2 : Nat) (c1 c2 : Ctl) (t1 t2 : Trace)
-    (h1 : run (slice prog f_sm2_SignHashed) globals X1 f1 f_sm2_SignHashed [rand, priv1, e1] = some (c1, t1))
-    (h2 : run (slice prog f_sm2_SignHashed) globals X2 f2 f_sm2_SignHashed [rand, priv2, e2] = some (c2, t2))
+    (h1 : run (slice prog f_sm2_SignHashed) globals (stdOracle extKinds tape1) f1 f_sm2_SignHashed [rand, priv1, e1] = some (c1, t1))
+    (h2 : run (slice prog f_sm2_SignHashed) globals (stdOracle extKinds tape2) f2 f_sm2_SignHashed [rand, priv2, e2] = some (c2, t2))
     (hd : declassOf t1 = declassOf t2) : t1 = t2 :=
-  (sound f_sm2_SignHashed ct_SignHashed _ rfl X1 X2 hX [rand, priv1, e1] [rand, priv2, e2] ⟨rfl, hp, he, trivial⟩ f1 f2 c1 c2 t1 t2 h1 h2 hd).1
+  (sound f_sm2_SignHashed ct_SignHashed _ rfl _ _ (stdOracle_rel tape1 tape2) [rand, priv1, e1] [rand, priv2, e2]
+    ⟨rfl, hp, he, trivial⟩ f1 f2 c1 c2 t1 t2 h1 h2 hd).1
+
+/-- … and completion transfers: if signing completes on (tape1, priv1, e1) with fuel f, it completes on
+    (tape2, priv2, e2) with the same fuel and the same trace whenever the verdicts met are the same -/
+theorem SignHashed_progress (tape1 tape2 : Nat → Nat → Nat) (rand priv1 priv2 e1 e2 : Val)
+    (hp : priv1.erase = priv2.erase) (he : e1.erase = e2.erase) (f : Nat) (c1 : Ctl) (t1 : Trace)
+    (h1 : run (slice prog f_sm2_SignHashed) globals (stdOracle extKinds tape1) f f_sm2_SignHashed [rand, priv1, e1] = some (c1, t1))
+    (hd : declassOf t1 = declassOf (runT (slice prog f_sm2_SignHashed) globals (stdOracle extKinds tape2) f f_sm2_SignHashed [rand, priv2, e2]).2) :
+    ∃ c2, run (slice prog f_sm2_SignHashed) globals (stdOracle extKinds tape2) f f_sm2_SignHashed [rand, priv2, e2] = some (c2, t1) :=
+  let ⟨c2, h, _⟩ := progress_verdicts f_sm2_SignHashed ct_SignHashed _ rfl _ _ (stdOracle_rel tape1 tape2)
+    [rand, priv1, e1] [rand, priv2, e2] ⟨rfl, hp, he, trivial⟩ f c1 t1 h1 hd
+  ⟨c2, h⟩
+
+/-- key generation: any two tapes of key candidates (redraws included), the same reader handle -/
+theorem GenerateKey_trace (tape1 tape2 : Nat → Nat → Nat) (rand : Val)
+    (f1 f2 : Nat) (c1 c2 : Ctl) (t1 t2 : Trace)
+    (h1 : run (slice prog f_sm2_GenerateKey) globals (stdOracle extKinds tape1) f1 f_sm2_GenerateKey [rand] = some (c1, t1))
+    (h2 : run (slice prog f_sm2_GenerateKey) globals (stdOracle extKinds tape2) f2 f_sm2_GenerateKey [rand] = some (c2, t2))
+    (hd : declassOf t1 = declassOf t2) : t1 = t2 :=
+  (sound f_sm2_GenerateKey ct_GenerateKey _ rfl _ _ (stdOracle_rel tape1 tape2) [rand] [rand]
+    ⟨rfl, trivial⟩ f1 f2 c1 c2 t1 t2 h1 h2 hd).1
 
 /-- key derivation: any two private keys of the same length -/
-theorem DerivePublic_trace (X1 X2 : Oracle) (hX : OracleRel sigs X1 X2) (d1 d2 : Val) (hd' : d1.erase = d2.erase)
+theorem DerivePublic_trace (tape1 tape2 : Nat → Nat → Nat) (d1 d2 : Val) (hd' : d1.erase = d2.erase)
     (f1 f2 : Nat) (c1 c2 : Ctl) (t1 t2 : Trace)
-    (h1 : run (slice prog f_sm2_DerivePublic) globals X1 f1 f_sm2_DerivePublic [d1] = some (c1, t1))
-    (h2 : run (slice prog f_sm2_DerivePublic) globals X2 f2 f_sm2_DerivePublic [d2] = some (c2, t2))
+    (h1 : run (slice prog f_sm2_DerivePublic) globals (stdOracle extKinds tape1) f1 f_sm2_DerivePublic [d1] = some (c1, t1))
+    (h2 : run (slice prog f_sm2_DerivePublic) globals (stdOracle extKinds tape2) f2 f_sm2_DerivePublic [d2] = some (c2, t2))
     (hd : declassOf t1 = declassOf t2) : t1 = t2 :=
-  (sound f_sm2_DerivePublic ct_DerivePublic _ rfl X1 X2 hX [d1] [d2] ⟨hd', trivial⟩ f1 f2 c1 c2 t1 t2 h1 h2 hd).1
+  (sound f_sm2_DerivePublic ct_DerivePublic _ rfl _ _ (stdOracle_rel tape1 tape2) [d1] [d2] ⟨hd', trivial⟩ f1 f2 c1 c2 t1 t2 h1 h2 hd).1
 
 /-! ## Declassification: every use is listed (site numbers: `siteInfo` of the generated file)
 
   0, 1: TestPrivateKey `acc == 0`, `cmp == -1`;  2, 3: SetBytes (mod p, mod n) `ConstantTimeCmp(…) > 0`;
   4, 5, 6: `p.z.IsZero() == 1` in SM2Point.bytes, GetAffineX, GetAffineX_Unsafe;  7: GenerateKey
   `TestPrivateKey(priv) == 0`;  8: SignHashed `test := TestPrivateKey(priv)`;  9–13: the retry decisions of
-  the signing loop (`k >= n`, `k = 0`, `r = 0`, `r + k = n`, `s = 0`). -/
+  the signing loop (`k >= n`, `k = 0`, `r = 0`, `r + k = n`, `s = 0`);  14: ensure32Bytes `i.Bytes()`
+  (the byte length of the outputs r, s). -/
 
 theorem sites_ConstantTimeCmp : sitesOf prog f_utils_ConstantTimeCmp = [] := by decide +kernel
 theorem sites_TestPrivateKey : sitesOf prog f_sm2_TestPrivateKey = [0, 1] := by decide +kernel
@@ -274,7 +360,8 @@ theorem sites_Double : sitesOf prog f_internal_SM2Point_Double = [] := by decide
 theorem sites_MultiSelect : sitesOf prog f_fiat_SM2Element_MultiSelect = [] := by decide +kernel
 theorem sites_DerivePublic : sitesOf prog f_sm2_DerivePublic = [4] := by decide +kernel
 theorem sites_GenerateKey : sitesOf prog f_sm2_GenerateKey = [7, 0, 1, 4] := by decide +kernel
-theorem sites_SignHashed : sitesOf prog f_sm2_SignHashed = [8, 9, 10, 11, 12, 13, 0, 1, 5, 3] := by decide +kernel
+theorem sites_SignHashed : sitesOf prog f_sm2_SignHashed = [8, 9, 10, 11, 12, 13, 0, 1, 5, 3, 14] := by decide +kernel
+theorem sites_ensure32Bytes : sitesOf prog f_sm2_ensure32Bytes = [14] := by decide +kernel
 
 /-! ## What is still rejected: the `_Unsafe` conversions (used by VerifyHashed on public data only) -/
 
@@ -310,6 +397,55 @@ theorem witness_Bytes_Unsafe : ∃ c1 t1 c2 t2,
     declassOf t1 = declassOf t2 ∧ t1 ≠ t2 :=
   tracesDiffer_spec SMGo.Proofs.CTIRCheck.witness_Bytes_Unsafe
 
+/-! ## Completion: the interpreter is not stuck (kernel evaluations on concrete inputs) -/
+
+theorem runs_ConstantTimeCmp : completes f_utils_ConstantTimeCmp [bytesV [1, 2, 3], bytesV [1, 3, 0], .int 3] = true := SMGo.Proofs.CTIRCheck.runs_ConstantTimeCmp
+theorem runs_TestPrivateKey : completes f_sm2_TestPrivateKey [key32 0x1234] = true := SMGo.Proofs.CTIRCheck.runs_TestPrivateKey
+theorem runs_TestPrivateKey_zero : completes f_sm2_TestPrivateKey [key32 0] = true := SMGo.Proofs.CTIRCheck.runs_TestPrivateKey_zero
+theorem runs_extractBit : completes f_internal_extractBit [key32 0x8001, .int 15] = true := SMGo.Proofs.CTIRCheck.runs_extractBit
+theorem runs_extractHigherBits : completes f_internal_extractHigherBits [key32 (2 ^ 255 + 12345), .int 17, .int 6, .int 42] = true := SMGo.Proofs.CTIRCheck.runs_extractHigherBits
+theorem runs_extractLowerBits : completes f_internal_extractLowerBits [key32 0xAB, .int 4] = true := SMGo.Proofs.CTIRCheck.runs_extractLowerBits
+theorem runs_MultiSelect : completes f_fiat_SM2Element_MultiSelect
+    [elV 0 0 0 0, .arr [limbsV 1 2 3 4, limbsV 5 6 7 8, limbsV 9 10 11 12], .int 3, .int 2, elV 7 7 7 7, .int 1] = true := SMGo.Proofs.CTIRCheck.runs_MultiSelect
+theorem runs_sm2Mul : completes f_fiat_sm2Mul [limbsV 0 0 0 0, limbsV 1 2 3 4, limbsV 5 6 7 8] = true := SMGo.Proofs.CTIRCheck.runs_sm2Mul
+theorem runs_sm2ScalarMul : completes f_fiat_sm2ScalarMul [limbsV 0 0 0 0, limbsV 1 2 3 4, limbsV 5 6 7 8] = true := SMGo.Proofs.CTIRCheck.runs_sm2ScalarMul
+theorem runs_SetBytes_p : completes f_fiat_SM2Element_SetBytes [elV 0 0 0 0, key32 0x1234567] = true := SMGo.Proofs.CTIRCheck.runs_SetBytes_p
+theorem runs_SetBytes_n : completes f_fiat_SM2ScalarElement_SetBytes [elV 0 0 0 0, key32 0x1234567] = true := SMGo.Proofs.CTIRCheck.runs_SetBytes_n
+theorem runs_ensure32Bytes : completes f_sm2_ensure32Bytes [.int 0x1234] = true := SMGo.Proofs.CTIRCheck.runs_ensure32Bytes
+theorem runs_Add : completes f_internal_SM2Point_Add [ptV 0 0 0, ptV 5 7 1, ptV 9 4 1] = true := SMGo.Proofs.CTIRCheck.runs_Add
+theorem runs_Double : completes f_internal_SM2Point_Double [ptV 0 0 0, ptV 5 7 1] = true := SMGo.Proofs.CTIRCheck.runs_Double
+
+/-! ### A run with a rejected candidate completes
+
+  The shape of the redraw loops of GenerateKey and SignHashed, small enough for the kernel:
+  `pos := 0; for { buf, n, err, pos := io.ReadFull(r, 1, pos); if declassify(buf[0] == 0) { continue }; return buf }`. -/
+
+def redrawBody : Stmt :=
+  .seq (.assign 1 [] (.lit 0))
+    (.seq (.loop (.lit 1)
+        (.seq (.ext [2, 3, 4, 1] 0 true [.var 0, .lit 1, .var 1])
+          (.seq (.declass 5 0 (.op2 .eq (.idxc (.var 2) 0) (.lit 0)))
+            (.ite (.var 5) .cont (.ret [.var 2]))))
+        .skip)
+      .panic)
+def redraw : Prog := [{ nparams := 1, nvars := 6, body := redrawBody }]
+def redrawSigs : Sigs := { fn := [{ params := [.L], results := [.H], declass := [0] }], ext := [[.H, .L, .L, .L]] }
+/-- first candidate 0 (rejected), then 7 -/
+def tapeA : Nat → Nat → Nat := fun pos _ => if pos = 0 then 0 else 7
+/-- first candidate 0 (rejected), then 200 -/
+def tapeB : Nat → Nat → Nat := fun pos _ => if pos = 0 then 0 else 200
+
+theorem redraw_checked : check redraw redrawSigs 0 = true := by decide +kernel
+/-- the run completes after one rejected candidate: two reads, verdicts "rejected", "accepted", result 7 -/
+theorem redraw_completes :
+    (run redraw (fun _ => .int 0) (stdOracle [.readFull] tapeA) 20 0 [.int 1]).map
+      (fun r => (declassOf r.2, r.2.length, match r.1 with | .ret vs => natOfBytes (argBytes vs 0) | _ => 999))
+      = some ([(0, 1), (0, 0)], 9, 7) := by decide +kernel
+/-- two tapes with different accepted candidates, rejected at the same position: the same trace -/
+theorem redraw_same_trace :
+    (run redraw (fun _ => .int 0) (stdOracle [.readFull] tapeA) 20 0 [.int 1]).map (fun r => traceDigest r.2)
+      = (run redraw (fun _ => .int 0) (stdOracle [.readFull] tapeB) 20 0 [.int 1]).map (fun r => traceDigest r.2) := by decide +kernel
+
 /-! ## Non-vacuity: the checker does reject a branch on a secret -/
 
 /-- `func f(s) int { if s != 0 { return 1 }; return 0 }` with `s` secret -/
@@ -334,6 +470,12 @@ example : check [{ nparams := 1, nvars := 2, body := .seq (.declass 1 7 (.var 0)
 
 #print axioms check_sound
 #print axioms sound
+#print axioms progress
+#print axioms stdOracle_rel
+#print axioms SignHashed_progress
+#print axioms GenerateKey_trace
+#print axioms runs_Add
+#print axioms redraw_completes
 #print axioms ct_ConstantTimeCmp
 #print axioms ct_TestPrivateKey
 #print axioms ct_MultiSelect
